@@ -541,7 +541,7 @@ func (e *Env) adjustReceiver(recvVal Value, cl callee, sig *types.Signature, st 
 		if sx, ok := stripParens(cl.recv).(*ast.SelectorExpr); ok {
 			if ref, owner, fld, ok := e.fieldAddr(sx, st); ok {
 				if _, isStruct := fld.Type().Underlying().(*types.Struct); isStruct {
-					return App("emb$"+structKey(fld.Type()), SInt, ref)
+					return c.embRef(owner, fld, ref)
 				}
 				return App("addr$"+structKey(owner)+"."+fld.Name(), SInt, ref)
 			}
@@ -771,6 +771,13 @@ func (e *Env) applyContract(call *ast.CallExpr, st *State, cl callee, ct *Contra
 				at = e.Info.TypeOf(call.Args[i])
 			}
 			v = e.convertAssign(args[i], at, p.Type(), st)
+			// an interface-typed parameter bound to a concrete pointer: specs may select its fields
+			if _, isI := p.Type().Underlying().(*types.Interface); isI && at != nil {
+				if _, isP := at.Underlying().(*types.Pointer); isP {
+					b.vals[name] = TV{v, at}
+					continue
+				}
+			}
 		} else {
 			v = c.zeroValue(p.Type())
 		}
@@ -821,6 +828,22 @@ func (e *Env) applyContract(call *ast.CallExpr, st *State, cl callee, ct *Contra
 		}
 		if i == 0 {
 			post.B.vals["result"] = TV{v, rv.Type()}
+		}
+	}
+	// "defines f(args)": the real function is the definition of the extern spec function f
+	for _, ex := range ct.Extra {
+		if ex.Kind == "defines" {
+			de, err := parseSpec(ex.Text)
+			if err != nil {
+				panic(specFail(err.Error()))
+			}
+			if len(rvals) == 1 {
+				if rt, ok := rvals[0].(*Term); ok {
+					dv := post.evalTerm(de)
+					st.assume(Eq(rt, coerce(dv, rt.Sort)))
+					c.noteAssumed("extern spec function defined by real code (determinism of side-effect-free Go): " + cl.fn.FullName() + " = " + ex.Text)
+				}
+			}
 		}
 	}
 	// allocation only grows; everything returned is allocated
